@@ -91,6 +91,13 @@ CHECKS.update({
   note="Trusted: z3/CrossHair, SHA-256 collision freedom, xarray. The operands half is solver-picked configuration with concrete execution (xarray cannot run under the tracer) - the weakest use of the technique here. Known findings (recorded, not repaired): distinct lambdas / distinct callables with equal __name__ collide."),
 })
 
+CHECKS.update({
+ "C11": dict(category="other", design_ref="DESIGN.md §4 C11",
+  technique="solver-driven exhaustive enumeration (CrossHair/z3 decision tree) of generated DAGs, name schemes and transformation parameters through the real graph transformers, against denotation/structure oracles",
+  text="Generated DAGs (1..3 nodes quick, 1..4 thorough; 0-2 inputs per node; output kinds default / a,b / name,payload / none; payload palette; four schemes of look-alike names such as a, a.b, ab, b.a, 0, x., '.', 'a.') go through copy_graph, rename_nodes (three injective renamers), deduplicate_nodes, fuse_nodes (callbacks 'never' and 'fuse linear chains'), split_graph (every 2-colouring) and expand_graph (template source->mid->leaves, with and without input/output maps, with and without an extra inner sink). Oracles: structure and sink denotations preserved (modulo renaming / prefixing / unfolding of fused chains); dedup leaves one node per distinct computation and is idempotent; split places every node in exactly one part, reports exactly the crossing edges and re-joins to the original; expand wires each consumer to the leaf selected by the output map and keeps an expanded terminal node alive. Decision trees exhausted in the quick tier.",
+  note="Trusted: z3/CrossHair. Names, outputs and payloads are palette picks (sets of Node objects iterate in id() order, so symbolic strings would make paths non-deterministic): the solver chooses the configuration. Assumed: unique names; prefixed names of an expansion do not collide with existing ones. Outside: custom splicers/splitters, other fusion callbacks, cyclic graphs, bigger graphs."),
+})
+
 NA_REASON = "check not built yet in this round (planned, see DESIGN.md §4); not claimed until its harness exists and passes on the unchanged tree"
 
 def main():
